@@ -330,10 +330,44 @@ def run_probes(ctx):
             ctx.known_finding(key)
 
 
+def directed_merge(ctx, seed):
+    """Sample sets without a complete sample whose merged order is nevertheless unambiguous: a second (shorter) sample
+    contributes a run of 1-3 new children anchored between two adjacent known children (or at an end)."""
+    rng = random.Random(seed)
+    names = [f"c{i}" for i in range(10)]
+    rng.shuffle(names)
+    a = names[: rng.randrange(2, 6)]
+    new = names[6 : 6 + rng.randrange(1, 4)]
+    p = rng.randrange(0, len(a) + 1)
+    b = a[max(p - 1, 0) : p] + new + a[p : p + 1]
+
+    def doc(children):
+        return "<r>" + "".join(f"<{n}>{rng.choice(['x', 'two words', 'A7'])}</{n}>" for n in children) + "</r>"
+
+    docs = {"a.xml": doc(a), "b.xml": doc(b)}
+    ctx.feature("directed:new-children-run-from-shorter-sample")
+    rs = sample_roundtrip(docs)
+    if rs is None:
+        ctx.inconc("directed merge case could not run")
+        return
+    for name, r in zip(sorted(docs), rs):
+        ctx.case("directed", docs["a.xml"], docs["b.xml"], name, nontrivial=True)
+        ctx.evals()
+        w = {"fn": "directed", "seed": seed}
+        if "out" not in r:
+            ctx.violation(f"sample-rejected/directed/{norm(r.get('parse_error') or r.get('render_error'))}", f"{r}\n{docs}", w)
+            continue
+        x, y = canon(etree.fromstring(docs[name].encode()), ({}, {}), set()), canon(etree.fromstring(r["out"].encode()), ({}, {}), set())
+        if x != y:
+            ctx.violation("not-reproduced/directed-merge-order", f"{first_diff(x, y)}\nsamples: {docs}\noutput for {name}: {r['out']}", w)
+
+
 def run_shard(ctx):
     rng = ctx.rng
     if ctx.shard == 0:
         run_probes(ctx)
+    for _ in range(ctx.pick(2, 30)):
+        directed_merge(ctx, rng.getrandbits(40))
     n = ctx.per_shard(ctx.pick(420, 10000))
     k = 0
     while k < n and (ctx.time_left() > 0 or len(ctx.fingerprints) < MIN_DISTINCT[ctx.tier] // ctx.nshards + 1):
@@ -342,4 +376,7 @@ def run_shard(ctx):
 
 
 def replay(witness, ctx):
-    check(ctx, witness["seed"], witness["kind"])
+    if witness.get("fn") == "directed":
+        directed_merge(ctx, witness["seed"])
+    else:
+        check(ctx, witness["seed"], witness["kind"])
